@@ -20,6 +20,8 @@ CONSTANTS Ctx <- McCtxTerm
  BGL = {}
  BoxFrom = {}
  BoxTo = {}
+ BoxSeqs = {}
+ SpendFrom = {}
  RewFrom = {}
  RewTerms = {}
  RewAmt = {}
